@@ -6,6 +6,7 @@
  * the shape walk: a wrong layout shows up as a shape divergence at once).
  */
 #define _GNU_SOURCE
+#include "rtrlib/lib/alloc_utils.h"
 #include "rtrlib/lib/ip_private.h"
 #include "rtrlib/lib/ipv4_private.h"
 #include "rtrlib/lib/ipv6_private.h"
@@ -36,6 +37,43 @@ struct h_node_data {
 #define NSRC 16
 static struct pfx_table tabs[NTAB];
 static struct rtr_socket socks[NSRC];
+
+/*
+ * Failing allocator (C02: an operation that cannot get memory reports an error and leaves the set as it was).
+ * "fail k" arms it for the NEXT operation line only: the k-th allocation request (malloc or realloc) the library
+ * makes during that operation returns NULL, every other one is served.  "failinfo" reports whether the armed
+ * request was reached and how many requests the operation made.  The harness itself allocates with libc directly,
+ * so only the library's requests are counted.
+ */
+static unsigned long inj_countdown, inj_calls;
+static bool inj_armed, inj_active, inj_fired;
+
+static bool inj_fail_now(void)
+{
+	if (!inj_active)
+		return false;
+	inj_calls++;
+	if (inj_countdown && --inj_countdown == 0) {
+		inj_fired = true;
+		return true;
+	}
+	return false;
+}
+
+static void *h_malloc(size_t n)
+{
+	return inj_fail_now() ? NULL : malloc(n);
+}
+
+static void *h_realloc(void *p, size_t n)
+{
+	return inj_fail_now() ? NULL : realloc(p, n);
+}
+
+static void h_free(void *p)
+{
+	free(p);
+}
 
 /* callback log per table */
 static char *logbuf[NTAB];
@@ -210,6 +248,7 @@ int main(void)
 	size_t cap = 0;
 
 	setvbuf(stdout, NULL, _IOLBF, 0);
+	lrtr_set_alloc_functions(h_malloc, h_realloc, h_free);
 	for (int i = 0; i < NTAB; i++)
 		pfx_table_init(&tabs[i], update_cb);
 
@@ -219,9 +258,32 @@ int main(void)
 
 		for (char *tok = strtok(line, " \t\r\n"); tok && n < 16; tok = strtok(NULL, " \t\r\n"))
 			w[n++] = tok;
+		inj_active = false;
 		if (n == 0) {
 			puts("bad-op");
 			continue;
+		}
+		if (!strcmp(w[0], "fail") && n == 2) {
+			unsigned long k;
+
+			if (!parse_uint(w[1], 1000000, &k) || k == 0) {
+				puts("bad-op");
+				continue;
+			}
+			inj_countdown = k;
+			inj_calls = 0;
+			inj_fired = false;
+			inj_armed = true;
+			puts("ok");
+			continue;
+		}
+		if (!strcmp(w[0], "failinfo") && n == 1) {
+			printf("failinfo fired=%d allocs=%lu\n", inj_fired ? 1 : 0, inj_calls);
+			continue;
+		}
+		if (inj_armed) {
+			inj_armed = false;
+			inj_active = true;
 		}
 		if ((!strcmp(w[0], "new") || !strcmp(w[0], "newnocb")) && n == 2 && tabidx(w[1]) >= 0) {
 			int t = tabidx(w[1]);
